@@ -185,7 +185,7 @@ func replayScen(a []string) string {
 func main() {
 	RegisterOp("racescen", replayScen) // racescen <seed> <nconn> <ncallers> <ms>
 	RegisterOp("sites", func(a []string) string {
-		ss, es, err := listSites(ServiceDir())
+		ss, es, cs, err := listSites(ServiceDir())
 		if err != nil {
 			return "error " + err.Error()
 		}
@@ -195,6 +195,9 @@ func main() {
 		}
 		for _, e := range es {
 			l = append(l, e.key())
+		}
+		for _, c := range cs {
+			l = append(l, c.key())
 		}
 		return strings.Join(l, " | ")
 	})
@@ -206,21 +209,38 @@ func main() {
 }
 
 func c18(c *Ctx) {
-	c.Rule = "tie (i): one correspondence case per distinct (function, struct, field, read/write) selector site of package service on the statically placed structs and per static call / go edge between its functions (exhaustive over the current source); tie (ii): scenarios of 6..20 terminals (first messages, duplicate keys, heartbeats, locations, authentication, sub-packaged and unsupported messages, answers / missing answers / duplicate answers, FIN / close / RST) x 2..6 callers (7 command types, with and without timer, 1..100 ms timeouts) on one server built with -race and seeded delays before every channel operation of connection.go; non-trivial = a scenario in which commands were answered AND timed out or were cut by a teardown; distinct = distinct scenario seeds"
+	c.Rule = "tie (i): the call graph, then one request per distinct (function, struct, field, read/write) selector site of package service on the statically placed structs, every static call / go / closure-sent-on-a-channel edge between its functions and every variable captured by a closure that runs in another goroutine (exhaustive over the current source); the model side derives the goroutine class(es) reaching each function from its root table and judges each site by (class, location, role); tie (ii): scenarios of 6..20 terminals (first messages, duplicate keys, heartbeats, locations, authentication, sub-packaged and unsupported messages, answers / missing answers / duplicate answers, FIN / close / RST) x 2..6 callers (7 command types, with and without timer, 1..100 ms timeouts) on one server built with -race and seeded delays before every channel operation of connection.go; non-trivial = a scenario in which commands were answered AND timed out or were cut by a teardown; distinct = distinct scenario seeds"
 	rng := c.Rng
 	// ---- tie (i): access sites
-	sites, edges, err := listSites(ServiceDir())
+	sites, edges, caps, err := listSites(ServiceDir())
 	if err != nil {
 		c.Case("sites-unavailable "+strings.Join(strings.Fields(err.Error()), "_"), "listed", true)
+	}
+	// one request carries the whole picture: the model side computes which goroutine class(es) reach every
+	// function (roots by its table, static calls stay in the caller's goroutine) and judges every site by
+	// (class, location, role) - so a function the model has never heard of (extract method) is fine as long
+	// as one class reaches it and that class may make the access
+	// the graph first (the oracle keeps it), then one short request per site / go / sent closure / capture
+	items := []string{}
+	for _, e := range edges {
+		items = append(items, "e:"+e.Kind+":"+e.Caller+":"+e.Callee)
+		c.Count("edge:" + e.Kind)
+	}
+	c.Case("graph "+strings.Join(items, " "), "graph-loaded", true)
+	for _, e := range edges {
+		if e.Kind != "call" {
+			c.Case(e.Kind+" "+e.Caller+" "+e.Callee, "ok", true)
+		}
 	}
 	for _, s := range sites {
 		c.Case("site "+s.key(), "modelled", true)
 		c.Count("site:" + s.Type)
 	}
-	for _, e := range edges {
-		c.Case(e.key(), "ok", true)
-		c.Count("edge:" + e.Kind)
+	for _, cp := range caps {
+		c.Case(cp.key(), "ok", true)
+		c.Count("capture")
 	}
+	c.Extra["captures"] = len(caps)
 	if g, ch, sy, err := attachShape(filepath.Join(ServiceDir(), "..", "attachment")); err == nil {
 		c.Case(fmt.Sprintf("attach-shape go=%d chan=%d sync=%d", g, ch, sy), "one-goroutine-per-connection", true)
 	} else {
